@@ -241,7 +241,7 @@ def run(res, tier="quick", seed=0, widen=False):
             absw = sum((abs(x) for x in win), Fraction(0)) / (len(win) if kind == "mean" else 1)
             past = sum((abs(Fraction(v)) for v in hist[g] if v is not None and abs(v) != float("inf")), Fraction(0))
             tol = 8 * U * absw + 64 * U * U * len(hist[g]) * past
-            if abs(Fraction(gi) - want) > tol:
+            if gi in (float("inf"), float("-inf")) or abs(Fraction(gi) - want) > tol:
                 bad.append((i, gi, float(want)))
         if bad:
             res.violations.append(dict(sig=dict(level="api", stream="magnitudes", kind=kind, what="drift"), case=case, observed=str([(b[0], b[1]) for b in bad]), expected=str([(b[0], b[2]) for b in bad]),
